@@ -1,70 +1,56 @@
 package main
 
 import (
+	"encoding/json"
 	"fmt"
 	"os"
-	"time"
-
-	dbm "github.com/cometbft/cometbft-db"
 
 	"exosim/sim"
 )
 
 func main() {
-	if len(os.Args) > 1 && os.Args[1] == "smoke" {
-		smoke()
-		return
+	if len(os.Args) > 1 {
+		switch os.Args[1] {
+		case "smoke":
+			smoke()
+			return
+		}
 	}
-	fmt.Println("usage: exosim smoke")
+	os.Exit(sim.Main(os.Args[1:]))
 }
 
 func smoke() {
 	cfg := sim.BaseConfig(1)
-	w := sim.NewWorld(cfg)
-	n := sim.NewNode("n0", cfg.ChainID, dbm.NewMemDB())
-	t0 := time.Now()
-	if err := n.Start(); err != nil {
-		panic(err)
+	plan := sim.Plan{}
+	blk := func(dt int64, ops ...sim.Op) { plan.Blocks = append(plan.Blocks, sim.Block{DtNs: dt * 1000000, Ops: ops}) }
+	blk(6000, sim.Op{K: "dep", A: 3, B: 0, Amt: "=500000000"}, sim.Op{K: "del", A: 3, B: 0, C: 3, Amt: "all", N: 1},
+		sim.Op{K: "assoc", A: 3, C: 3}, sim.Op{K: "optin", A: 3, D: 0})
+	for i := 0; i < 30; i++ {
+		blk(13000)
 	}
-	gs, cp, err := w.BuildGenesis(n.App)
-	if err != nil {
-		panic(err)
+	blk(6000, sim.Op{K: "und", A: 3, B: 0, C: 3, Amt: "%500", N: 2}, sim.Op{K: "ndel", A: 0, C: 1, Amt: "=1000000"})
+	for i := 0; i < 30; i++ {
+		blk(13000)
 	}
-	req, _ := w.InitChainRequest(gs, cp)
-	res, perr := n.InitChain(req)
-	if perr != nil {
-		fmt.Println(perr.Error())
-		fmt.Println(perr.Stack)
-		os.Exit(1)
+	r := sim.NewRun("C11", 1, cfg, plan, nil)
+	r.NoPanicGuard = true
+	r.Verbose = true
+	r.Execute()
+	for _, t := range r.Results {
+		fmt.Printf("h=%d %s ok=%v code=%d log=%.200s\n", t.Height, t.Op, t.OK, t.Resp.Code, t.Resp.Log)
 	}
-	c := sim.NewChain(w)
-	if err := c.ApplyInit(res); err != nil {
-		panic(err)
-	}
-	fmt.Println("init ok", time.Since(t0), "vals", c.ValSets[1].Size())
-	for i := 0; i < 40; i++ {
-		hdr := c.NextHeader(13*time.Second, i)
-		votes := c.Votes(hdr.Height, nil)
-		c.CurHeader = hdr
-		if _, p := n.BeginBlock(c.BeginBlockRequest(hdr, votes, nil)); p != nil {
-			fmt.Println(p.Error(), p.Stack)
-			os.Exit(1)
+	for _, b := range r.Chain.Blocks {
+		if len(b.ValUpdates) > 0 {
+			fmt.Printf("h=%d updates=%d\n", b.Height, len(b.ValUpdates))
 		}
-		eb, p := n.EndBlock(hdr.Height)
-		if p != nil {
-			fmt.Println(p.Error(), p.Stack)
-			os.Exit(1)
-		}
-		if err := c.ApplyEndBlock(hdr.Height, eb.ValidatorUpdates); err != nil {
-			panic(err)
-		}
-		cr, p := n.Commit()
-		if p != nil {
-			fmt.Println(p.Error(), p.Stack)
-			os.Exit(1)
-		}
-		c.Committed(hdr, cr.Data)
-		fmt.Printf("h=%d t=%s apphash=%x ups=%d\n", hdr.Height, hdr.Time.Format(time.RFC3339), cr.Data[:4], len(eb.ValidatorUpdates))
 	}
-	fmt.Println("done", time.Since(t0))
+	for _, l := range r.Log {
+		fmt.Println(l)
+	}
+	fmt.Println("blocks", r.Stats.Blocks, "aborted", r.Stats.Aborted)
+	if r.Viol != nil {
+		b, _ := json.MarshalIndent(r.Viol, "", " ")
+		fmt.Println(string(b))
+	}
+	fmt.Println("epoch calls", len(r.EpochCalls), r.SubscriberTypes)
 }
